@@ -576,14 +576,27 @@ func (e *Enc) execCall(v ssa.Value, c *ssa.CallCommon, in ssa.Instruction, guard
 		}
 	}
 	if ok := isLock; ok {
-		e.applyAtsIn(in, "before call", short, in.Pos(), nil, nil)
+		var largs []Val
+		var ltypes []types.Type
+		if c.IsInvoke() {
+			largs, ltypes = append(largs, e.val(c.Value)), append(ltypes, c.Value.Type())
+		}
+		for _, a := range c.Args {
+			largs, ltypes = append(largs, e.val(a)), append(ltypes, a.Type())
+		}
+		e.atArgTypes = ltypes
+		e.applyAtsIn(in, "before call", short, in.Pos(), largs, nil)
 		if e.execLockOp(op, c, in) {
 			if v != nil {
 				e.vals[v] = Val{}
 			}
-			e.applyAtsIn(in, "call", short, in.Pos(), nil, nil)
+			e.atArgTypes = ltypes
+			e.applyAtsIn(in, "call", short, in.Pos(), largs, nil)
+			e.atArgTypes = nil
 			return
 		}
+		e.atArgTypes = nil
+		e.beforeDone = true
 	}
 	ord := e.siteOrdinal(in, "call", short)
 	site := fmt.Sprintf("%s#%d", short, ord)
@@ -621,7 +634,10 @@ func (e *Enc) execCall(v ssa.Value, c *ssa.CallCommon, in ssa.Instruction, guard
 			e.atResTypes = append(e.atResTypes, sig.Results().At(i).Type())
 		}
 	}
-	e.applyAtsIn(in, "before call", short, in.Pos(), args, nil)
+	if !e.beforeDone {
+		e.applyAtsIn(in, "before call", short, in.Pos(), args, nil)
+	}
+	e.beforeDone = false
 	var results []Val
 	if fc != nil {
 		results = e.applyContract(fc, key, site, sig, sfn, c, args, argTypes, bindings, in)
@@ -703,7 +719,7 @@ func keyOr(a, b string) string {
 
 // calleeEnv builds the spec environment for a callee contract at a call site.
 func (e *Enc) calleeEnv(fc *FuncContract, sig *types.Signature, sfn *ssa.Function, c *ssa.CallCommon, args []Val, argTypes []types.Type, bindings []ssa.Value) *specEnv {
-	env := &specEnv{e: e, cur: e.cur, old: e.cur, vars: map[string]SV{}, ptrVars: map[string]ptrVar{}, noLocals: true}
+	env := &specEnv{e: e, cur: e.cur, old: e.cur, vars: map[string]SV{}, ptrVars: map[string]ptrVar{}, noLocals: true, isCallee: true}
 	// package for name resolution
 	if sfn != nil && sfn.Pkg != nil {
 		env.pkg = sfn.Pkg.Pkg
@@ -1148,6 +1164,10 @@ func (e *Enc) execSelect(in *ssa.Select) {
 }
 
 func (e *Enc) execRecv(in *ssa.UnOp) {
+	ra := []Val{e.val(in.X)}
+	e.atArgTypes = []types.Type{in.X.Type()}
+	defer func() { e.atArgTypes = nil }()
+	e.applyAts("before recv", "", in.Pos(), ra, nil)
 	et := in.X.Type().Underlying().(*types.Chan).Elem()
 	c := e.fresh("recv", e.sortOf(et))
 	e.assume(e.typeFacts(c, et, e.cur))
@@ -1156,7 +1176,7 @@ func (e *Enc) execRecv(in *ssa.UnOp) {
 	} else {
 		e.vals[in] = Val{T: c}
 	}
-	e.applyAts("recv", "", in.Pos(), nil, nil)
+	e.applyAts("recv", "", in.Pos(), ra, nil)
 }
 
 // ---------- builtins ----------
@@ -1220,7 +1240,11 @@ func (e *Enc) execBuiltin(v ssa.Value, b *ssa.Builtin, c *ssa.CallCommon, in ssa
 			set(t)
 		}
 	case "close":
-		e.applyAts("close", "", in.Pos(), nil, nil)
+		ca := []Val{e.val(c.Args[0])}
+		e.atArgTypes = []types.Type{c.Args[0].Type()}
+		e.applyAts("before close", "", in.Pos(), ca, nil)
+		e.applyAts("close", "", in.Pos(), ca, nil)
+		e.atArgTypes = nil
 	case "print", "println":
 	case "recover":
 		if v != nil {
@@ -1405,6 +1429,7 @@ func (e *Enc) execMapUpdate(in *ssa.MapUpdate) {
 	m, k, v := e.val(in.Map).T, e.val(in.Key).T, e.val(in.Value).T
 	e.oblige("nil", e.ordName("nil"), tNot(tEq(m, "0")), in.Pos(), "assignment to entry in nil map")
 	e.mapFrame(mt, m, in.Pos())
+	e.applyAts("before mapupdate", "", in.Pos(), nil, nil)
 	hs := e.mapHeaps(mt)
 	has := e.define("had", "Bool", tSel(tSel(e.hget(e.cur, hs[1][0], hs[1][1]), m), k))
 	MV, MH, ML := e.hget(e.cur, hs[0][0], hs[0][1]), e.hget(e.cur, hs[1][0], hs[1][1]), e.hget(e.cur, hs[2][0], hs[2][1])
@@ -1415,6 +1440,7 @@ func (e *Enc) execMapUpdate(in *ssa.MapUpdate) {
 }
 
 func (e *Enc) mapDelete(mt *types.Map, m, k Term, pos token.Pos) {
+	e.applyAts("before mapdelete", "", pos, nil, nil)
 	hs := e.mapHeaps(mt)
 	e.mapFrame(mt, m, pos)
 	MH, ML := e.hget(e.cur, hs[1][0], hs[1][1]), e.hget(e.cur, hs[2][0], hs[2][1])
@@ -1489,4 +1515,102 @@ func sortedKeys(m map[string]bool) []string {
 	}
 	sort.Strings(out)
 	return out
+}
+
+// immutableCapture: fv is a captured variable that is assigned exactly once, in the entry block of the function that
+// declares it and before any closure over it is created (a captured parameter or receiver, or a local initialised once),
+// whose address is otherwise only loaded from or bound to further closures. Every load of it, in any activation of any
+// of those closures, yields the same value, so no call can change what this closure reads from it.
+func immutableCapture(fn *ssa.Function, fv *ssa.FreeVar) bool {
+	idx := -1
+	for i, v := range fn.FreeVars {
+		if v == fv {
+			idx = i
+		}
+	}
+	parent := fn.Parent()
+	if idx < 0 || parent == nil {
+		return false
+	}
+	// the variable as seen by the parent
+	var bound ssa.Value
+	for _, b := range parent.Blocks {
+		for _, in := range b.Instrs {
+			if mc, ok := in.(*ssa.MakeClosure); ok && mc.Fn == ssa.Value(fn) && idx < len(mc.Bindings) {
+				if bound != nil && bound != mc.Bindings[idx] {
+					return false
+				}
+				bound = mc.Bindings[idx]
+			}
+		}
+	}
+	switch b := bound.(type) {
+	case *ssa.FreeVar:
+		return immutableCapture(parent, b)
+	case *ssa.Alloc:
+		return singleInitAlloc(parent, b)
+	}
+	return false
+}
+
+func singleInitAlloc(root *ssa.Function, a *ssa.Alloc) bool {
+	stores := 0
+	ok := true
+	firstClosure := -1 // instruction index in block 0 of the first closure over a (if created there)
+	var visit func(v ssa.Value, inRoot bool)
+	visit = func(v ssa.Value, inRoot bool) {
+		refs := v.Referrers()
+		if refs == nil {
+			ok = false
+			return
+		}
+		for _, r := range *refs {
+			switch r := r.(type) {
+			case *ssa.DebugRef:
+			case *ssa.UnOp:
+				if r.Op != token.MUL {
+					ok = false
+				}
+			case *ssa.Store:
+				if r.Addr != v || r.Val == v {
+					ok = false
+					continue
+				}
+				stores++
+				if !inRoot || r.Block() != root.Blocks[0] {
+					ok = false
+					continue
+				}
+				for i, in := range root.Blocks[0].Instrs {
+					if in == ssa.Instruction(r) && firstClosure >= 0 && i > firstClosure {
+						ok = false
+					}
+				}
+			case *ssa.MakeClosure:
+				cf, isFn := r.Fn.(*ssa.Function)
+				if !isFn {
+					ok = false
+					continue
+				}
+				for i, bv := range r.Bindings {
+					if bv == v && i < len(cf.FreeVars) {
+						visit(cf.FreeVars[i], false)
+					}
+				}
+			default:
+				ok = false
+			}
+		}
+	}
+	for i, in := range root.Blocks[0].Instrs {
+		if mc, isMC := in.(*ssa.MakeClosure); isMC {
+			for _, bv := range mc.Bindings {
+				if bv == ssa.Value(a) && firstClosure < 0 {
+					firstClosure = i
+				}
+			}
+		}
+	}
+	visit(a, true)
+	return ok && stores <= 1
 }
